@@ -34,6 +34,30 @@ pub fn documents(tier: Tier) -> Vec<A> {
     out.push(A::doc(vec![A::comment("c"), A::el("", "a").child(A::el("", "b")).child(A::text("t")).child(A::el("", "c").child(A::text("u"))), A::pi("pi", Some("d"))]));
     out.push(A::doc(vec![A::el("", "a").child(A::comment(" c - d ")).child(A::pi("pi", None)).child(A::pi("po", Some("x y")))]));
     out.push(A::doc(vec![A::el("", "a").child(A::text("t")).child(A::comment("c")).child(A::text("u"))]));
+    // 2b. every child sequence of length <= 3 over {text, comment, PI, PI with data, element} (no adjacent text):
+    //     every kind of neighbour between two text runs
+    {
+        let kinds = [A::text("t"), A::comment("c"), A::pi("pi", None), A::pi("po", Some("d")), A::el("", "b")];
+        for i in 0..crate::gen::strings_count(5, 3) {
+            let seq = crate::gen::nth_string(&kinds, 3, i);
+            if seq.is_empty() || seq.windows(2).any(|w| w[0].k == K::Text && w[1].k == K::Text) {
+                continue;
+            }
+            // make the text runs distinguishable
+            let mut n = 0;
+            let seq: Vec<A> = seq
+                .into_iter()
+                .map(|mut x| {
+                    if x.k == K::Text {
+                        n += 1;
+                        x.val = Some(["one", "two", "tri"][n - 1].to_string());
+                    }
+                    x
+                })
+                .collect();
+            out.push(A::doc(vec![A::el("", "a").kids(seq)]));
+        }
+    }
     // 3. namespaces: prefixes, default, shadowing, undeclaration, two prefixes for one namespace, URI with '&'
     out.push(A::doc(vec![A::el(X, "a").decl("p", X).attr(X, "k", "1").attr("", "k", "2")]));
     out.push(A::doc(vec![A::el(X, "a").decl("", X).decl("p", X).attr(X, "k", "1").child(A::el(X, "b"))]));
